@@ -347,7 +347,10 @@ def minimise(failure, optname):
     n[0] += 1
     r = check_item((n[0], optname, s, None))
     return any(f['sig'] == sig for f in r['failures'])
+  t_end = time.time() + 60
   for i in range(len(lines) - 1, start, -1):
+    if 'fuel' in lines[i] or time.time() > t_end:
+      continue                     # fuel counters keep every loop finite: never deleted
     cand = lines[:i] + lines[i + 1:]
     if fails(cand):
       lines = cand
@@ -372,9 +375,10 @@ def minimise_load(lf):
     n[0] += 1
     r = check_item((n[0], lf['options'], s, None))
     return bool(r['load_failure']) and r['load_failure']['error'].startswith(key)
+  t_end = time.time() + 60
   for _ in range(2):
     for i in range(len(lines) - 1, start, -1):
-      if i < len(lines):
+      if i < len(lines) and 'fuel' not in lines[i] and time.time() < t_end:
         cand = lines[:i] + lines[i + 1:]
         if fails(cand):
           lines = cand
